@@ -189,6 +189,26 @@ CHECKS["C18"] = dict(
     ref="DESIGN.md section 4, C18",
 )
 
+CHECKS["C06"] = dict(
+    category="exploration",
+    technique="bounded-exhaustive enumeration of the backend's scalar straight-line subset x boundary inputs, three-way differential (reference evaluation in binary32, wasmtime, independent wasm interpreter); one observable program per construct outside the subset",
+    text="Every signature of 0-3 int/float parameters x every expression tree up to 2 operators over the backend's operators with "
+         "LEB-boundary constants is compiled to wasm and executed on wasmtime and on an independent interpreter for the complete (arity "
+         "<=2) or pairwise (arity 3) grid of boundary inputs; outside the subset each construct must agree with the VM or be refused.",
+    note="Trusted: wasmtime as conforming engine, nslmc/wasmref.py as second executor, w_eval as reference. Inputs whose result depends on "
+         "binary32/binary64 rounding or overflows are UNSPECIFIED (counted in the evidence).",
+    ref="DESIGN.md section 4, C06",
+)
+CHECKS["C07"] = dict(
+    category="exploration",
+    technique="bounded-exhaustive enumeration of emitted modules (subset programs, shape grid of parameter/local type interleavings, constructs outside the subset) checked by an independent WebAssembly 1.0 decoder and validator",
+    text="Every module emitted for the enumerated programs is decoded (preamble, section order, exact sizes, vector counts, function/code "
+         "agreement) and validated (index ranges, export targets, stack type-checking of each body against its signature) by a validator "
+         "written from the 1.0 specification; wasmtime's validator is a cross-check that may only reject what the reference rejects.",
+    note="Trusted: nslmc/wasmref.py. Programs outside the enumerated families are not covered.",
+    ref="DESIGN.md section 4, C07",
+)
+
 PENDING = {}
 
 
